@@ -81,8 +81,8 @@ Proof. intros. rewrite construct_message_bridge. apply construct_message_spec. Q
 
 Lemma g_validation_refusal : forall T rm rf cfg p a e s,
   cfg_validation_pattern cfg = Some p ->
-  rm (test_pattern p) (norm T cfg s) = false ->
-  (accept_any_mode cfg = true \/ rm (test_pattern p) (norm T cfg e) = true) ->
+  rf p (norm T cfg s) = false ->
+  (accept_any_mode cfg = true \/ rf p (norm T cfg e) = true) ->
   gcheck T rm rf cfg a e s = refusal cfg (cfg_explain_validation cfg) (cfg_invalid_msg cfg).
 Proof.
   intros T rm rf cfg p a e s Hc Hs He. rewrite check_response_bridge. rewrite <- !clean_spec in *.
@@ -91,69 +91,55 @@ Qed.
 
 Lemma g_validation_pass : forall T rm rf cfg p a e s,
   cfg_validation_pattern cfg = Some p ->
-  rm (test_pattern p) (norm T cfg s) = true ->
-  (accept_any_mode cfg = true \/ rm (test_pattern p) (norm T cfg e) = true) ->
+  rf p (norm T cfg s) = true ->
+  (accept_any_mode cfg = true \/ rf p (norm T cfg e) = true) ->
   gcheck T rm rf cfg a e s = gcheck T rm rf (without_pattern cfg) a e s.
 Proof.
   intros T rm rf cfg p a e s Hc Hs He. rewrite !check_response_bridge. rewrite <- !clean_spec in *.
   apply (validation_pass T rm rf cfg p Hc); assumption.
 Qed.
 
-Lemma g_validation_accepts_full_matches : forall T rf cfg p r a e s,
+(* the full-strength sentence of the property about validation, on the regenerated code *)
+Lemma g_validation_fullmatch : forall T rm cfg p r a e s,
   cfg_validation_pattern cfg = Some p -> parse p = Some r ->
   (accept_any_mode cfg = true \/ in_language T r (norm T cfg e)) ->
-  in_language T r (norm T cfg s) ->
-  gcheck T (re_match_text T) rf cfg a e s = gcheck T (re_match_text T) rf (without_pattern cfg) a e s.
+  (~ in_language T r (norm T cfg s) ->
+     gcheck T rm (re_fullmatch_text T) cfg a e s = refusal cfg (cfg_explain_validation cfg) (cfg_invalid_msg cfg)) /\
+  (in_language T r (norm T cfg s) ->
+     gcheck T rm (re_fullmatch_text T) cfg a e s = gcheck T rm (re_fullmatch_text T) (without_pattern cfg) a e s).
 Proof.
-  intros T rf cfg p r a e s Hc Hp He Hs. rewrite !check_response_bridge. rewrite <- !clean_spec in *.
-  apply (validation_accepts_full_matches T rf cfg p r); assumption.
+  intros T rm cfg p r a e s Hc Hp He. rewrite !check_response_bridge. rewrite <- !clean_spec in *.
+  apply (validation_fullmatch T rm cfg p r); assumption.
 Qed.
 
-Lemma g_validation_fullmatch_partial : forall T rf cfg p r a e s,
-  tables_ok T -> cfg_validation_pattern cfg = Some p -> parse p = Some r ->
-  top_level_alternation p = false -> py_endswith p [94] = false ->
-  (accept_any_mode cfg = true \/ in_language T r (norm T cfg e)) ->
-  ~ in_language T r (norm T cfg s) ->
-  gcheck T (re_match_text T) rf cfg a e s = refusal cfg (cfg_explain_validation cfg) (cfg_invalid_msg cfg).
+Lemma g_validation_expect_outside_language : forall T rm cfg p r a e s,
+  cfg_validation_pattern cfg = Some p -> parse p = Some r -> accept_any_mode cfg = false ->
+  ~ in_language T r (norm T cfg e) ->
+  gcheck T rm (re_fullmatch_text T) cfg a e s = RaiseConfig.
 Proof.
-  intros T rf cfg p r a e s HT Hc Hp Ht Hend He Hs. rewrite check_response_bridge. rewrite <- !clean_spec in *.
-  apply (validation_fullmatch_partial T rf cfg p r); assumption.
+  intros T rm cfg p r a e s Hc Hp Ha He. rewrite check_response_bridge. rewrite <- !clean_spec in *.
+  apply (validation_expect_outside_language T rm cfg p r); assumption.
 Qed.
 
-(* the full-strength sentence of the property about validation (accept_any graders), on the regenerated code *)
-Definition g_validation_is_fullmatch : Prop :=
-  forall T cfg p r a e s,
-    tables_ok T -> cfg_validation_pattern cfg = Some p -> parse p = Some r -> accept_any_mode cfg = true ->
-    ~ in_language T r (gclean T cfg s) ->
-    gcheck T (re_match_text T) (re_fullmatch_text T) cfg a e s
-    = refusal cfg (cfg_explain_validation cfg) (cfg_invalid_msg cfg).
+(* the inputs that refuted the claim before the repair are now refused *)
+Lemma g_regression_alternation :
+  gcheck T_plain (re_match_text T_plain) (re_fullmatch_text T_plain) (cfg_any [97; 124; 98]) inferred_answer [] [97; 98]
+  = RaiseInvalid [98; 97; 100].
+Proof. rewrite check_response_bridge. exact regression_alternation. Qed.
 
-Lemma g_validation_fullmatch_refuted : ~ g_validation_is_fullmatch.
-Proof.
-  intro H. apply validation_fullmatch_refuted. intros T cfg p r a e s HT Hc Hp Ha Hn.
-  rewrite <- check_response_bridge. apply (H T cfg p r a e s HT Hc Hp Ha). rewrite clean_input_bridge. exact Hn.
-Qed.
+Lemma g_regression_trailing_caret :
+  gcheck T_plain (re_match_text T_plain) (re_fullmatch_text T_plain) (cfg_any [94]) inferred_answer [] [120]
+  = RaiseInvalid [98; 97; 100].
+Proof. rewrite check_response_bridge. exact regression_trailing_caret. Qed.
 
-Lemma g_validation_fullmatch_refuted_trailing_caret :
-  exists T cfg p r a e s,
-    tables_ok T /\ cfg_validation_pattern cfg = Some p /\ parse p = Some r /\ accept_any_mode cfg = true /\
-    ~ in_language T r (gclean T cfg s) /\
-    gcheck T (re_match_text T) (re_fullmatch_text T) cfg a e s = Ret (credit_of a).
-Proof.
-  destruct validation_fullmatch_refuted_trailing_caret as (T & cfg & p & r & a & e & s & H).
-  exists T, cfg, p, r, a, e, s. rewrite clean_input_bridge, check_response_bridge. exact H.
-Qed.
-
-Lemma g_validation_refusal_refuted_normal_mode :
-  exists T cfg p r a e s,
-    tables_ok T /\ cfg_validation_pattern cfg = Some p /\ parse p = Some r /\ accept_any_mode cfg = false /\
-    in_language T r (gclean T cfg e) /\ ~ in_language T r (gclean T cfg s) /\
-    cfg_explain_validation cfg = ExErr /\
-    gcheck T (re_match_text T) (re_fullmatch_text T) cfg a e s = Ret zero_entry.
-Proof.
-  destruct validation_refusal_refuted_normal_mode as (T & cfg & p & r & a & e & s & H).
-  exists T, cfg, p, r, a, e, s. rewrite !clean_input_bridge, check_response_bridge. exact H.
-Qed.
+Lemma g_regression_normal_mode :
+  gcheck T_plain (re_match_text T_plain) (re_fullmatch_text T_plain) (cfg_normal [97; 124; 98]) inferred_answer [97] [97; 120]
+  = RaiseInvalid [98; 97; 100]
+  /\ gcheck T_plain (re_match_text T_plain) (re_fullmatch_text T_plain) (cfg_normal [97; 124; 98]) inferred_answer [97] [97]
+  = Ret (credit_of inferred_answer)
+  /\ gcheck T_plain (re_match_text T_plain) (re_fullmatch_text T_plain) (cfg_normal [97; 124; 98]) inferred_answer [97] [98]
+  = Ret zero_entry.
+Proof. rewrite !check_response_bridge. exact regression_normal_mode. Qed.
 
 Lemma g_call_expect : forall cfg,
   gexpect cfg None = if accept_any_mode cfg then Some [] else None.
@@ -194,15 +180,13 @@ Lemma ex_accept_nonempty :
   /\ gcheck T_plain (re_match_text T_plain) (re_fullmatch_text T_plain) cfg_nonempty inferred_answer [] [120] = Ret (credit_of inferred_answer).
 Proof. split; [eexists|]; vm_compute; reflexivity. Qed.
 
-(* a pattern without top-level alternation: "\([0-9]+\)" satisfies the hypotheses of the partial theorem *)
-Lemma ex_partial_hypotheses_satisfiable :
+(* a documented pattern of the subset: "\([0-9]+\)" *)
+Lemma ex_documented_pattern :
   exists r, parse [92; 40; 91; 48; 45; 57; 93; 43; 92; 41] = Some r
-            /\ top_level_alternation [92; 40; 91; 48; 45; 57; 93; 43; 92; 41] = false
-            /\ py_endswith [92; 40; 91; 48; 45; 57; 93; 43; 92; 41] [94] = false
             /\ re_fullmatch T_plain r [40; 52; 50; 41] = true /\ re_fullmatch T_plain r [40; 52; 50; 41; 120] = false.
 Proof. eexists. repeat split; vm_compute; reflexivity. Qed.
 
-(* where the "$" goes in "a|b$": on the last alternative only *)
+(* where a "$" appended to the TEXT "a|b" would go: on the last alternative only (why the repaired code does not do that) *)
 Lemma ex_dollar_binds_to_last_alternative :
   parse [97; 124; 98; 36] = Some (Alt (Cat Eps (lit 97)) (Cat (Cat Eps (lit 98)) Eol))
   /\ top_level_alternation [97; 124; 98] = true.
